@@ -137,6 +137,15 @@ func (fsm *FSM) applyRobustMessage(msg *robust.Message, i *ircserver.IRCServer, 
 		} else {
 			i.ConfigMu.Lock()
 			defer i.ConfigMu.Unlock()
+			// The handler compares the posted revision with the state of
+			// the node which answers the request, which can lag behind
+			// the log (e.g. while the log is replayed after a restart).
+			// An update which does not follow the revision in force is
+			// skipped by every node when applying it.
+			if msg.Revision != i.Config.Revision+1 {
+				log.Printf("Skipping configuration update with revision %d, the revision in force is %d\n", msg.Revision, i.Config.Revision)
+				return fmt.Errorf("Revision mismatch (got %d, want %d). Try again.", msg.Revision-1, i.Config.Revision)
+			}
 			i.Config = newCfg
 			i.Config.Revision = msg.Revision
 			if i != ircServer {
